@@ -79,6 +79,19 @@ def descendants(n, mask, roots):
     return out
 
 
+def split_extras(fail):
+    """the last slot of a case holds (node, exc_kind) pairs plus optional ('cache', nodes) / ('legacy', True) markers"""
+    real, precache, legacy = [], None, False
+    for a, b in fail:
+        if a == "cache":
+            precache = tuple(b)
+        elif a == "legacy":
+            legacy = bool(b)
+        else:
+            real.append((a, b))
+    return tuple(real), precache, legacy
+
+
 class Exec:
     """Everything observed in one execution."""
 
@@ -87,14 +100,23 @@ class Exec:
 
 def run_case_once(case, ch=None, ncb=1, extra_callbacks=None):
     entry, n, mask, kinds, style, rev, req_form, nw, cs, fail = case
+    fail, precache, legacy = split_extras(fail)
     dsk, K = build_graph(n, mask, kinds, style, rev, dict(fail))
     keys = req_keys(req_form, K)
+    cache = None
+    if precache is not None:
+        vals = ref_values(n, mask, kinds)
+        cache = {K[i]: vals[i] for i in precache}
+    if any(ek == "W" for _, ek in fail) and entry in ("mp", "mp_noopt"):
+        # prelude: an earlier failing computation in the same process whose exception class shares its NAME with kind W
+        d0, K0 = build_graph(1, 0, "t", style, False, {0: "U"})
+        run_entry(entry, d0, K0[0], 1, 1, Chooser(()))
     recs = [Recorder() for _ in range(ncb)]
     cbs = [r.tuple for r in recs]
     if extra_callbacks:
         cbs = cbs + list(extra_callbacks)
     ch = ch if ch is not None else Chooser(())
-    status, value, ex, h = run_entry(entry, dsk, keys, nw, cs, ch, callbacks=cbs)
+    status, value, ex, h = run_entry(entry, dsk, keys, nw, cs, ch, callbacks=cbs, cache=cache, legacy=legacy)
     e = Exec()
     e.status, e.value, e.ex, e.h, e.recs = status, value, ex, h, recs
     e.log = list(sched.LOG)
@@ -140,6 +162,12 @@ def check_C01(case, e, K, ctx, viol):
 
 def check_C02(case, e, K, ctx, viol):
     entry, n, mask, kinds, style, rev, req_form, nw, cs, fail = case
+    fail, precache, legacy = split_extras(fail)
+    if precache is not None:
+        # with a pre-populated cache the statement does not say which tasks still run: only the values are judged
+        if e.status != "ok" or not same(e.value, expected_value(case)):
+            viol(f"C02:precache:{e.status}", f"{e.status} {e.value!r} choices={e.choices}")
+        return
     if e.status != "ok":
         viol(f"C02:{e.status}:{type(e.value).__name__}", f"{e.status}: {e.value!r} choices={e.choices}")
         return
@@ -191,6 +219,18 @@ def check_C02(case, e, K, ctx, viol):
 
 def check_C03(case, e, K, ctx, viol):
     entry, n, mask, kinds, style, rev, req_form, nw, cs, fail = case
+    fail, precache, legacy = split_extras(fail)
+    if precache is not None:
+        # pre-populated cache: requested results must never be released and the call must return the right value
+        if e.status != "ok" or not same(e.value, expected_value(case)):
+            viol(f"C03:precache:{e.status}:{type(e.value).__name__}", f"{e.status} {e.value!r} choices={e.choices}")
+            return
+        idx = {k: i for i, k in enumerate(K)}
+        for kind, key, snap in e.recs[0].events:
+            if snap is not None and any(K[i] in snap[1] for i in set(flat(req_form))):
+                viol("C03:precache:requested-released", f"requested key released at {kind} {key!r}; choices={e.choices}")
+                return
+        return
     if e.status != "ok":
         viol(f"C03:{e.status}:{type(e.value).__name__}", f"{e.status}: {e.value!r} choices={e.choices}")
         return
@@ -242,6 +282,8 @@ def _exc_matches(entry, exc, node, ek):
         return True  # cannot be transported; only termination / callbacks are judged
     if not isinstance(exc, type(proto)):
         return False
+    if ek == "W" and not isinstance(exc, KeyError):
+        return False
     if entry not in ("mp", "mp_noopt") and type(exc) is not type(proto):
         return False
     return f"msg-{node}" in str(exc)
@@ -249,6 +291,7 @@ def _exc_matches(entry, exc, node, ek):
 
 def check_C04(case, e, K, ctx, viol):
     entry, n, mask, kinds, style, rev, req_form, nw, cs, fail = case
+    fail, precache, legacy = split_extras(fail)
     need = needed(n, mask, flat(req_form))
     failing = {i: ek for i, ek in fail}
     reach = {i for i in failing if i in need}
@@ -286,6 +329,7 @@ def check_C04(case, e, K, ctx, viol):
 
 def check_C05(case, e, K, ctx, viol):
     entry, n, mask, kinds, style, rev, req_form, nw, cs, fail = case
+    fail, precache, legacy = split_extras(fail)
     failed = e.status != "ok"
     if e.status == "deadlock":
         viol("C05:deadlock", f"choices={e.choices}")
